@@ -80,7 +80,17 @@ fn gen_list(rng: &mut Rng) -> Vec<f64> {
             (rng.range(-50, 560) as f64, rng.range(-50, 430) as f64)
         }
     };
-    match rng.below(17) {
+    match rng.below(18) {
+        17 => {
+            // coordinates far beyond what a file can hold (the API takes any f32): thousands of subdivisions per segment
+            let s = *rng.pick(&[1e5f64, 1e6, 4e6]);
+            let n = 3 + rng.below(3);
+            let mut v = vec![(1, 0.0, 0.0)];
+            for _ in 1..n {
+                v.push((-1, (rng.unit() * s).round(), (rng.unit() * s).round()));
+            }
+            flat(&v)
+        }
         15 => {
             // degenerate: two or three identical points (with a requested length this is the "no extension" corner)
             let a = if rng.chance(1, 2) { (0.0, 0.0) } else { c(rng) };
@@ -537,6 +547,17 @@ impl Scenario for C18 {
                         st.inc("ops.compute-borrowed");
                         // the conversions and the scalar accessors are part of "whichever API"
                         let o = c.to_owned_curve();
+                        // evaluating the same curve through the owned and the borrowed view must agree bit for bit
+                        for pr in [0.0f64, 1.0, 0.5, -1.0, 2.0, 0.3, 0.999_999, f64::NAN] {
+                            let (a, b) = (o.position_at(pr), c.position_at(pr));
+                            if a.x.to_bits() != b.x.to_bits() || a.y.to_bits() != b.y.to_bits() || o.progress_to_dist(pr).to_bits() != c.progress_to_dist(pr).to_bits() {
+                                return Err(Violation::new("C18/differs-from-fresh-buffers", "evaluation", format!("op #{i}: position_at({pr}) / progress_to_dist differ between the owned and the borrowed view of one and the same curve: {a:?} vs {b:?}")));
+                            }
+                            let d = c.progress_to_dist(pr);
+                            if o.idx_of_dist(d) != c.idx_of_dist(d) {
+                                return Err(Violation::new("C18/differs-from-fresh-buffers", "evaluation", format!("op #{i}: idx_of_dist({d}) differs between the owned and the borrowed view of the same curve")));
+                            }
+                        }
                         let back = o.as_borrowed_curve();
                         // (bit-wise: a path may legitimately hold NaN coordinates, e.g. for an infinite requested length)
                         if snap(o.path(), o.lengths()) != snap(c.path(), c.lengths()) || o.dist().to_bits() != c.dist().to_bits() || snap(back.path(), back.lengths()) != snap(c.path(), c.lengths()) {
